@@ -227,8 +227,8 @@ def make_preempt(shape, nthreads, fa=None, fb=None, klo=1, khi=1500, only=None):
         def run(name, trig, after=None):
             try:
                 obs[name] = first_use(C, Sub, trig, after)
-            except instrument.WouldBlock:
-                raise
+            except (instrument.WouldBlock, Skip, Violation):
+                raise  # harness control flow, not an observation of the thread
             except Exception as ex:
                 obs[name] = ("EXC", type(ex).__name__, repr(ex)[:200])
 
@@ -324,8 +324,7 @@ def obligations(tier):
             warm = [(0, 0, 0, k, 1) for k in (klo, klo + 7, klo + width - 1)]
             tagm = "core" if only else "all"
             obs.append(Ob(f"C19.preempt2.{shape}.A-{fa}.B-{fb}.{tagm}.k{klo}-{klo + width - 1}", make_preempt(shape, 2, fa, fb, klo, klo + width - 1, only), warm, f"E2-preempt, 2 threads, class shape {shape}: A's triggering access ({fa}) preempted at its k-th executed statement of {'spec_class.py / methods/base.py' if only else 'library code'}, k symbolic in [{klo},{klo + width - 1}] (the triggering access executes {kmax - 15} such statements on this tree: measured at listing time); B performs a complete first use ({fb}); LIFO-nested schedules only; a B that needs a lock held by A = infeasible schedule (skipped)", expect=set(), timeout=T, per_path=120, group=f"C19.preempt2.{shape}"))
-    if tier == "thorough":
-        for shape in ("attrs", "lazy-parent"):
-            warm = [(ta, tb, tc, k, j) for ta in (0, 1) for tb in (0, 1) for tc in (0, 2) for k in (11, 400) for j in (5, 300)]
-            obs.append(Ob(f"C19.preempt3.{shape}", make_preempt(shape, 3), warm, f"E2-preempt, 3 threads nested (A..B..C..B..A), shape {shape}; k, j symbolic", expect={"preempted"}, timeout=T, per_path=120))
+    # Three nested threads (A..B..C..B..A, make_preempt(shape, 3)) are NOT registered: the index space k x j (up to
+    # 1500 x 1500) cannot be exhausted, and the first end-to-end run of that shard exposed a harness fault (an
+    # out-of-bound j was recorded as an exception seen by thread A) - fixed above, but the shard is not claimed.
     return obs
